@@ -1,7 +1,9 @@
 /-
-C13 — model of `CallableParallelExecution.execute` (worker pool), of the DOE layer of
-`BaseDOELibrary._run` (pre-seeded database, store callback, `remove_empty_entries`) and of
-concurrent `cache_outputs` calls on a shared full cache.
+C13 — model of `CallableParallelExecution.execute` (worker pool), of successive `execute()`
+calls on one executor object (§4), of the DOE layer of `BaseDOELibrary._run` (pre-seeded
+database, store callback, `remove_empty_entries`), of concurrent `cache_outputs` calls on a
+shared full cache (§3) and of `BaseFullCache` with outputs *and* Jacobians written at
+`_last_accessed_index` under interleaved `cache_outputs` / `cache_jacobian` calls (§5).
 
 Code anchored:
   src/gemseo/core/parallel_execution/callable_parallel_execution.py
@@ -9,7 +11,8 @@ Code anchored:
   src/gemseo/core/parallel_execution/disc_parallel_linearization.py  (positional return list)
   src/gemseo/algos/doe/base_doe_library.py `_run`, `__store_in_database`
   src/gemseo/algos/database.py `store`, `remove_empty_entries`
-  src/gemseo/caches/base_full_cache.py `cache_outputs` (lock-protected, hence atomic)
+  src/gemseo/caches/base_full_cache.py `__ensure_input_data_exists` (l.109-156), `_cache_inputs`,
+     `cache_outputs`, `cache_jacobian` (lock-protected, hence atomic), `__getitem__`
 
 The worker pool is a *nondeterministic transition system*: the operating system decides which
 enabled transition fires next.  A schedule is any finite list of enabled transitions.
